@@ -688,7 +688,15 @@ func (c *Client) Start() (addr net.Addr, err error) {
 	cmd.Stdin = os.Stdin
 
 	if c.config.SecureConfig != nil {
-		if ok, err := c.config.SecureConfig.Check(cmd.Path); err != nil {
+		// Check the file that will be run: a relative command path is run
+		// relative to cmd.Dir, not to our own working directory. (No
+		// filepath.Join here: cleaning "a/../b" lexically would name another
+		// file than the one the kernel resolves when "a" is a symlink.)
+		checkPath := cmd.Path
+		if cmd.Dir != "" && !filepath.IsAbs(checkPath) {
+			checkPath = cmd.Dir + string(os.PathSeparator) + checkPath
+		}
+		if ok, err := c.config.SecureConfig.Check(checkPath); err != nil {
 			return nil, fmt.Errorf("error verifying checksum: %s", err)
 		} else if !ok {
 			return nil, ErrChecksumsDoNotMatch
